@@ -57,7 +57,7 @@ func C10(c *Ctx) {
 	profiles := []*gast.Profile{pegProfile(), stateProfile(), errorProfile(), throwProfile()}
 	var gs []*gast.Grammar
 	var lr []bool
-	for _, g := range append(c05Strata(), rollbackStrata()[:20]...) {
+	for _, g := range append(append(c05Strata(), rollbackStrata()[:20]...), c02Strata()...) {
 		gs = append(gs, g)
 		lr = append(lr, false)
 	}
